@@ -58,14 +58,11 @@ def create_synced_records_both_sides(w: World, translated_path: str):
 def create_synced_fault_table(w: World, translated_path: str):
     """L3.4 / L10.4: the wrapper around the create: success is FINISHED; a missing parent is handed to the parent
     handler; a bad name freezes the entry as irrelevant (FINISHED, one FILE_NAME_ERROR notification at most); an
-    object in the way is a PUNT and is adopted into the entry only after the entry was punted at least once and the
-    provider confirms it; the wrapper itself never writes to a provider"""
+    object in the way is a PUNT and is adopted into the entry only when the provider confirms it is there; the wrapper itself never writes to a provider"""
     mgr = w.mgr
     sync = w.entry("sync")
     changed = w.changed
     synced = w.synced
-    prio = sync.priority
-    irr0 = sync.is_irrelevant
     r = mgr.create_synced(changed, sync, translated_path)
     check(len(provider_writes()) == 0, "the wrapper itself writes nothing")
     check(r == FINISHED or r == PUNT, "finished or punt")
@@ -75,12 +72,11 @@ def create_synced_fault_table(w: World, translated_path: str):
               "the only provider call is a look-up of the translated path on the other side")
     check(len(pcs) <= 1, "at most one look-up")
     if len(pcs) == 1:
-        check(prio > 0, "only for an entry that was punted before")
         if pcs[0].ok and pcs[0].result is not None and r == PUNT:
             check(sync[synced].oid == pcs[0].result.oid, "the object in the way becomes the entry's peer")
-            check(sync[synced].path == translated_path, "at the translated path")
-    if sync.is_irrelevant and not irr0:
-        check(r == FINISHED, "an entry frozen for a bad name is finished")
+            check(sync[synced].path == w.providers[synced].normalize_path_separators(translated_path), "at the translated path")
+    if len(notifications()) > 0:
+        check(r == FINISHED and sync.is_irrelevant, "a bad name is reported only when the entry is frozen as irrelevant and finished")
 
 
 @lemma(props=["C03", "C04"], configs="sides", raises=["Exception"],
@@ -182,3 +178,35 @@ def folder_file_conflict_contract(w: World, translated_path: str):
     if r is not None:
         check(r is not sync, "the conflict is another entry")
         check(r[synced].otype != DIRECTORY, "which is not a folder on the other side")
+
+
+@lemma(props=["C05", "C02"], configs="sides", raises=["ValueError", "Exception"],
+       # the path algebra is proved in path_laws.py; here split / join are arbitrary total functions
+       stubs={"cloudsync.provider:Provider.split": {"results": ["str_pair"], "raises": False, "havoc": False},
+              "cloudsync.provider:Provider.join": {"results": ["str"], "raises": False, "havoc": False}})
+def conflict_rename_only_renames(w: World, path: str):
+    """L5.4 / L2.7: moving a conflicting copy out of the way never destroys anything: the only provider writes are renames, on
+    that side, of the one object found at the path; the name is tried again (with a counter) only after 'already exists';
+    the triple returned is (that object's id, the id the successful rename returned, the new path), or three Nones when
+    nothing is at the path"""
+    mgr = w.mgr
+    side = w.changed
+    r = mgr.conflict_rename(side, path)
+    pcs = provider_calls()
+    ws = provider_writes()
+    check(len(pcs) >= 1 and pcs[0].method == "info_path" and pcs[0].side == side and pcs[0].args[0] == path,
+          "the object is looked up at the path on that side")
+    info = pcs[0].result
+    if info is None:
+        check(len(ws) == 0, "nothing there: no write")
+        check(r[0] is None and r[1] is None and r[2] is None, "and three Nones")
+    else:
+        for c in ws:
+            check(c.side == side and c.method == "rename" and c.args[0] == info.oid, "every write is a rename of that object on that side")
+        check(r[0] == info.oid, "the old id is reported")
+        check(r[1] is not None and r[2] is not None, "with the new id and path")
+        found = False
+        for c in ws:
+            if c.ok and c.result == r[1] and c.args[1] == r[2]:
+                found = True
+        check(found, "which are those of a rename that succeeded")
